@@ -1218,7 +1218,7 @@ func c32RunRestore(c c32RestoreCase) (verifkit.Outcome, error) {
 		}
 		if e.Parent == 0 {
 			for j, d := range e.Dirs {
-				if d.Kind == 4 && (j == 0 || j == destIdx || c32Names[j] == "42") {
+				if d.Kind == 4 && (j == 0 || j == destIdx) {
 					obstructed = true
 				}
 			}
@@ -1452,7 +1452,7 @@ func c32GenDir(t *rapid.T, label string, kinds []int) c32Dir {
 
 func c32GenRestore(t *rapid.T) c32RestoreCase {
 	c := c32RestoreCase{}
-	c.Users = rapid.SampledFrom([]int{0, 1, 1, 2, 2, 2}).Draw(t, "users")
+	c.Users = rapid.SampledFrom([]int{0, 1, 1, 2, 2, 2, 2}).Draw(t, "users")
 	c.Instance = rapid.IntRange(0, 4).Draw(t, "instance") == 0
 	c.Hidden = rapid.IntRange(0, 4).Draw(t, "hidden") == 0
 	for i := 0; i <= c.Users; i++ {
@@ -1465,9 +1465,9 @@ func c32GenRestore(t *rapid.T) c32RestoreCase {
 		if i > 0 {
 			e.Home = rapid.SampledFrom([]int{0, 0, 0, 0, 0, 0, 0, 0, 1, 2}).Draw(t, "home")
 		}
-		e.Parent = rapid.SampledFrom([]int{0, 0, 0, 0, 0, 0, 0, 0, 0, 1, 2, 3}).Draw(t, "parent")
+		e.Parent = rapid.SampledFrom([]int{0, 0, 0, 0, 0, 0, 0, 0, 0, 0, 0, 0, 0, 0, 0, 0, 1, 1, 2, 3}).Draw(t, "parent")
 		for range c32Names {
-			e.Dirs = append(e.Dirs, c32GenDir(t, "existing", []int{1, 1, 1, 1, 1, 1, 0, 0, 2, 3, 4}))
+			e.Dirs = append(e.Dirs, c32GenDir(t, "existing", []int{1, 1, 1, 1, 1, 1, 1, 1, 1, 1, 0, 0, 0, 2, 2, 3, 3, 4}))
 		}
 		c.Existing = append(c.Existing, e)
 	}
@@ -1487,11 +1487,11 @@ func c32GenRestore(t *rapid.T) c32RestoreCase {
 			f.Pos = -rapid.IntRange(3, 9).Draw(t, "gzhdr") // gzip flags/mtime/xfl/os bytes
 		}
 	case "tar-dies":
-		f.K = rapid.SampledFrom([]int{1, 2, 2, 2, 3, 3}).Draw(t, "k")
+		f.K = rapid.SampledFrom([]int{1, 2, 2, 2, 2, 3}).Draw(t, "k")
 		f.Pos = rapid.SampledFrom([]int{0, 1, 10, 100, 300, 512, 1024, 4096, 20000, 1 << 30}).Draw(t, "bytes")
 		f.Kill = rapid.Bool().Draw(t, "kill")
 	case "cancel":
-		f.K = rapid.SampledFrom([]int{0, 1, 2, 2, 2, 3, 3}).Draw(t, "k")
+		f.K = rapid.SampledFrom([]int{0, 1, 2, 2, 2, 2, 3}).Draw(t, "k")
 	}
 	c.Fault = f
 	return c
